@@ -106,6 +106,12 @@ def tasks(tier, seed):
             for tls in (False, True):
                 ts.append({"kind": "ending", "e": i, "ping": ping, "tls": tls, "bound": (2 if tier == "quick" else 4) if ping else 0,
                            "name": "%s/ping=%s/tls=%s" % (name, ping, tls)})
+    # process-wide default reconnect interval (setReconnect(1)) together with an explicit run_forever(reconnect=0): "do not reconnect" stands
+    for i, (name, peer, exp) in enumerate(ENDINGS):
+        if peer.get("lost_first"):
+            continue
+        ping = bool(peer.get("needs_ping"))
+        ts.append({"kind": "ending", "e": i, "ping": ping, "tls": False, "bound": 0, "modrec": True, "name": "%s/ping=%s/setReconnect(1)+reconnect=0" % (name, ping)})
     # close() from a second thread
     for ping in (False, True):
         for tls in (False, True):
@@ -184,6 +190,9 @@ def make_spec(desc):
         if peer.get("ki"):
             spec["raising"] = peer["ki"]
             spec["raise_exc"] = "KeyboardInterrupt"
+        if desc.get("modrec"):
+            spec["module_reconnect"] = 1
+            spec["run_kwargs"] = dict(spec["run_kwargs"], reconnect=0)
         spec["expect"] = dict(exp)
         spec["expect"]["name"] = name
         if peer.get("second") == "silent":
